@@ -13,6 +13,7 @@ let areas : (string list -> string option) list = [
   D_c16.run_case;
   D_recv.run_case;
   D_tui.run_case;
+  D_tids.run_case;
 ]
 
 let run_case toks =
